@@ -25,7 +25,7 @@ S_OPS = ['connect /', 'connect /a auth', 'connect unserved', 'connect refused', 
          'event unknown', 'ack known', 'ack unknown', 'ack duplicate', 'client disconnect', 'malformed', 'stray binary',
          'emit room', 'emit sid callback', 'emit sid raising-callback', 'enter', 'leave', 'close', 'server disconnect',
          'session', 'loss e1', 'event on class namespace', 'call', 'emit room callback skip', 'emit unserialisable',
-         'emit unserialisable callback']
+         'emit unserialisable callback', 'session in place']
 
 
 def run_server(asyncio_, plan, classns):
@@ -165,6 +165,12 @@ def run_server(asyncio_, plan, classns):
         elif name == 'session':
             if s0:
                 api('save', lambda: w.s.save_session(s0, {'u': 1}))
+                api('get', lambda: w.s.get_session(s0))
+        elif name == 'session in place':
+            if s0:
+                # the dictionary handed out is the stored one: what is put into it without save_session() is read back
+                sess = w.call(w.s.get_session(s0))
+                sess['visits'] = sess.get('visits', 0) + 1
                 api('get', lambda: w.s.get_session(s0))
         elif name == 'loss e1':
             w.lose('e1', 'transport close')
